@@ -89,7 +89,7 @@ CHECKS = {
         floors={"concurrent": ("TestFold", 0.15), "mixed-criticality": ("TestFold", 0.4)},
     ),
     "C16": dict(
-        pkg="./props/c16", level="fault_enumeration",
+        pkg="./props/c16", bins=["./cmd/execworker"], level="fault_enumeration",
         rule=("exhaustive depth-first enumeration, through the real executorcmd.RpcClient over loopback gRPC against an in-process OCC server "
               "that follows occ/plugin/OccFMQCommon.cxx::doTransition, of: control mode (FairMQ, direct) x event (CONFIGURE, START, STOP, RESET, EXIT) "
               "x claimed source state (4) x real device state (9 FairMQ / 5 direct, i.e. including wrong sources) x every assignment of an outcome "
@@ -97,8 +97,8 @@ CHECKS = {
               "applying) to every device step the transitioner actually issues. Non-trivial: a path with >=1 non-done step (counted, all distinct by construction)."),
         assumptions=["the simulated device follows the OCC plugin's doTransition (source-state check, expected final state per event, ok/trigger rules) and the FairMQ state table",
                      "'unknown' (empty) is an admissible report only when the device is in an intermediate state, after an injected gRPC-level failure of the last request, or when the caller's claimed source was wrong"],
-        quick=[R("^TestCommitExhaustive$", 1, 1, 300)],
-        thorough=[R("^TestCommitExhaustive$", 1, 1, 300)],
+        quick=[R("^TestCommitExhaustive$", 1, 1, 300), R("^TestWorkerResponsesFixed$", 1, 1, 300), R("^TestWorkerResponses$", 6, 6, 600, shrinktime="30s")],
+        thorough=[R("^TestCommitExhaustive$", 1, 1, 300), R("^TestWorkerResponsesFixed$", 1, 1, 300), R("^TestWorkerResponses$", 120, 12, 3000, shrinktime="60s")],
     ),
     "C07": dict(
         pkg="./props/c07", bins=["./cmd/simcore"], level="exploration",
@@ -434,6 +434,10 @@ _ADDENDA = {
             "has no opinion) interleaved with task updates, every node compared with the fold after every step; often a group holding nothing but calls."),
     "C14": " (B) optionally one aggregator level is an include role with defaults/vars of its own (also iterated), its subtree living in a second file.",
     "C15": " An inner iterator reuses the variable name of an enclosing one in a third of the cases (the nearest binding wins).",
+    "C16": (" TestWorkerResponses: the last hop, executable.ControllableTask.Transition, through the executor stand-in of C17 (real task code, simulated "
+            "FairMQ/direct device): generated walks of 1-5 transition requests, a third of them asked from a source state the device is not in (the "
+            "plugin answers 'state mismatch'), device steps refused or failing at random; every response carries no state or a state of the O2 "
+            "vocabulary, never a raw device state."),
     "C17": (" Child behaviour also: a command (no shell) naming a binary that does not exist; device outcome also: the device process dies while handling "
             "the transition."),
     "C18": (" Restart variants: the first KILL per task refused (at most three tasks); reconciliation answers 1.5 s late, offers 3 s late and a NewEnvironment "
